@@ -92,7 +92,20 @@ type Server struct {
 
 func (s Server) getRequestContext() *app.RequestContext {
 	if disabaleRequestContextPool {
-		return &app.RequestContext{}
+		// not taken from the pool, but prepared like a pooled one: the handler index starts before the
+		// first handler, and with tracing on the context carries a trace info at the pooled contexts' level
+		ctx := app.NewContext(0)
+		if s.EnableTrace {
+			ti := traceinfo.NewTraceInfo()
+			if pooled, ok := s.Core.GetCtxPool().Get().(*app.RequestContext); ok && pooled != nil {
+				if pooled.GetTraceInfo() != nil {
+					ti.Stats().SetLevel(pooled.GetTraceInfo().Stats().Level())
+				}
+				s.Core.GetCtxPool().Put(pooled)
+			}
+			ctx.SetTraceInfo(ti)
+		}
+		return ctx
 	}
 	return s.Core.GetCtxPool().Get().(*app.RequestContext)
 }
